@@ -3,6 +3,8 @@
 the real PGM-index templates to CBMC's C front end.  Scratch feasibility probe, not framework code."""
 import re, sys, os
 
+OPTS = {'narrow': 0}   # narrow=B: wide mul/div/int->fp are computed on B-bit signed operands under a CHECKED assertion that the operands fit
+
 class Ty:
     def __init__(s, k, **kw): s.k = k; s.__dict__.update(kw)
     def __repr__(s): return tystr(s)
@@ -88,7 +90,7 @@ def skip_attrs(p):
 
 class Mod:
     def __init__(s):
-        s.types = {}; s.globals = {}; s.gorder = []; s.funcs = {}; s.decls = {}; s.forder = []
+        s.types = {}; s.globals = {}; s.gorder = []; s.funcs = {}; s.decls = {}; s.forder = []; s.nounwind_groups = set(); s.fattr = {}
 
 CINT = {1: '_Bool', 8: 'unsigned char', 16: 'unsigned short', 32: 'unsigned int', 64: 'unsigned long', 128: 'unsigned __int128'}
 SINT = {8: 'signed char', 16: 'short', 32: 'int', 64: 'long', 128: '__int128'}
@@ -216,6 +218,9 @@ def parse_module(text):
             m.gorder.append(ln)
         elif ln.startswith('declare '):
             parse_decl(m, ln)
+        elif ln.startswith('attributes #'):
+            mo = re.match(r'attributes #(\d+) = \{(.*)\}', ln)
+            if mo and re.search(r'(^|\s)nounwind(\s|$)', mo.group(2)): m.nounwind_groups.add(mo.group(1))
         elif ln.startswith('define '):
             body = []
             hdr = ln; i += 1
@@ -252,6 +257,7 @@ def parse_decl(m, ln):
     p = P(tokenize(ln.split(' #')[0])); p.expect('declare')
     ret, name, args, va = parse_sig(p)
     m.decls[name] = (ret, [a for a, _ in args], va)
+    m.fattr[name] = (re.findall(r' #(\d+)', ln), ' nounwind' in ln.split(')')[-1])
 
 class Fn: pass
 
@@ -259,9 +265,11 @@ def parse_func(m, hdr, body):
     h = hdr[:hdr.rindex('{')]
     h = re.sub(r' personality .*$', '', h); h = re.sub(r' comdat(\([^)]*\))?', '', h)
     h = re.sub(r' (#\d+|align \d+|section "[^"]*"|uwtable|nounwind|mustprogress)+\s*$', '', h)
+    groups = re.findall(r' #(\d+)', hdr.split(')')[-1]); kw = ' nounwind' in hdr.split(')')[-1]
     h = re.sub(r'( #\d+)+', '', h)
     p = P(tokenize(h)); p.expect('define')
     f = Fn(); f.ret, f.name, f.args, f.va = parse_sig(p)
+    m.fattr[f.name] = (groups, kw)
     f.blocks = []; cur = None; nxt = 0
     # implicit numbering: unnamed args then entry block
     for k, (t, an) in enumerate(f.args):
@@ -531,6 +539,18 @@ def instr(s, ins, decls):
         if op == 'sub' and not os.environ.get('LL2C_NO_PTRDIFF') and a in s.defs and b in s.defs and s.defs[a][0] == 'ptrtoint' and s.defs[b][0] == 'ptrtoint':
             # difference of two pointers: keep it a pointer difference (object/offset model), not integer addresses
             setd(ty, '((%s)RT_PTRDIFF(%s, %s))' % (ct, s.defs[a][1], s.defs[b][1])); return
+        B = OPTS['narrow']
+        if B and ty.bits >= 64 and op in ('mul', 'sdiv', 'srem', 'udiv', 'urem') and constval(a) is None and constval128(a) is None and constval(b) is None and constval128(b) is None:
+            # checked narrowing: assert both operands are B-bit signed values, then compute on 2B bits (exact, no wrap)
+            nb = {16: 'int', 32: 'long', 8: 'short'}[B]
+            g.stats['narrowed_' + op] += 1
+            s.emit('RT_ASSERT(RT_SFITS%d(%s, %d) && RT_SFITS%d(%s, %d), "NARROW: operands of a %d-bit %s fit %d signed bits");' % (g.rnd(ty.bits), a, B, g.rnd(ty.bits), b, B, ty.bits, op, B))
+            if op in ('udiv', 'urem'):
+                s.emit('RT_ASSERT(!RT_SNEG%d(%s) && !RT_SNEG%d(%s), "NARROW: operands of an unsigned %s are non-negative as signed values");' % (g.rnd(ty.bits), a, g.rnd(ty.bits), b, op))
+            cop = {'mul': '*', 'sdiv': '/', 'udiv': '/', 'srem': '%', 'urem': '%'}[op]
+            if op != 'mul': s.emit('RT_ASSERT(%s != 0, "division by zero");' % b)
+            e = '((%s)(%s)((%s)(%s)%s %s (%s)(%s)%s))' % (ct, SINT[g.rnd(ty.bits)], nb, SINT[g.rnd(ty.bits)], a, cop, nb, SINT[g.rnd(ty.bits)], b)
+            setd(ty, s.mask(ty, e)); return
         if op in ('sdiv', 'srem'):
             e = '((%s)(%s %s %s))' % (ct, s.sx(ty, a), '/' if op == 'sdiv' else '%', s.sx(ty, b))
         elif op == 'ashr': e = '((%s)(%s >> %s))' % (ct, s.sx(ty, a), b)
@@ -569,6 +589,11 @@ def instr(s, ins, decls):
         if op == 'zext': e = '((%s)%s)' % (ct, v)
         elif op == 'sext': e = s.mask(dt, '((%s)%s)' % (ct, s.sx(st, v)))
         elif op == 'trunc': e = s.mask(dt, '((%s)%s)' % (ct, v)) if dt.bits != 1 else '((_Bool)(%s & 1))' % v
+        elif op in ('sitofp', 'uitofp') and OPTS['narrow'] and st.bits >= 64 and constval(v) is None:
+            B = OPTS['narrow']; nb = {16: 'int', 32: 'long', 8: 'short'}[B]
+            g.stats['narrowed_' + op] += 1
+            s.emit('RT_ASSERT(RT_SFITS%d(%s, %d)%s, "NARROW: operand of a %d-bit %s fits %d signed bits");' % (g.rnd(st.bits), v, B, '' if op == 'sitofp' else ' && !RT_SNEG%d(%s)' % (g.rnd(st.bits), v), st.bits, op, B))
+            e = '((%s)(%s)(%s)%s)' % (ct, nb, SINT[g.rnd(st.bits)], v)
         elif op == 'sitofp': e = '((%s)%s)' % (ct, s.sx(st, v))
         elif op == 'fptosi':
             s.emit('RT_ASSERT(%s > -0x1p%d - 1 && %s < 0x1p%d, "fptosi operand inside the range of the target type (else poison/UB)");' % (v, dt.bits - 1, v, dt.bits - 1))
@@ -661,11 +686,16 @@ def call(s, op, p, dst, decls):
         if p.peek() == 'metadata': raise SyntaxError('metadata arg')
         args.append(s.tv(p)); p.eat(',')
     p.next()
-    normal = unwind = None
+    normal = unwind = None; nounwind = False
     while not p.done():
         t = p.next()
         if t == 'to': p.expect('label'); normal = p.next()
         elif t == 'unwind': p.expect('label'); unwind = p.next()
+        elif t == '#' and p.peek() in s.m.nounwind_groups: nounwind = True
+        elif t == 'nounwind': nounwind = True
+    if callee in s.m.fattr:
+        grp, kw = s.m.fattr[callee]
+        if kw or any(x in s.m.nounwind_groups for x in grp): nounwind = True
     av = [v for _, v in args]
     if callee[0] == '@':
         nm = callee[1:]
@@ -684,7 +714,7 @@ def call(s, op, p, dst, decls):
         return
     if op == 'invoke':
         s.emit('if (rt_exc_pending) {'); s.jump(s.cur, unwind); s.emit('}'); s.jump(s.cur, normal)
-    else:
+    elif not nounwind:
         s.emit('if (rt_exc_pending) %s' % s.retdummy())
 
 @FGm
@@ -728,6 +758,10 @@ def intrinsic(s, nm, rty, args):
     if mo: return 'rt_%s_%s(%s)' % (mo.group(1), mo.group(2), av[0])
     raise SyntaxError('intrinsic ' + nm)
 
+
+def constval128(e):
+    mo = re.fullmatch(r'\(\(\(\(unsigned __int128\)(\d+)UL\)<<64\)\|(\d+)UL\)', e)
+    return (int(mo.group(1)) << 64) | int(mo.group(2)) if mo else None
 
 def constval(e):
     mo = re.fullmatch(r'\(\(unsigned (?:long|int|char|short)\)(\d+)UL\)', e)
@@ -874,6 +908,14 @@ def translate(m, roots):
         seen.add(fn)
         if fn not in m.funcs: continue
         before = set(g.called)
+        if re.match(r'@_ZNSt7__cxx119to_stringE|@_ZStplIcSt11char_traitsIcESaIcEENSt7__cxx1112basic_string', fn) and m.funcs[fn].ret.k == 'void' \
+                and m.funcs[fn].args and m.funcs[fn].args[0][0].k == 'ptr':
+            # libstdc++ message formatting (std::to_string, operator+ on std::string): result = valid empty string.
+            # Message text is not part of any property; this keeps the exception paths short.
+            f = m.funcs[fn]
+            hdr = 'void %s(%s)' % (fname(fn), ', '.join(g.decl(t, 'a%d' % i) for i, (t, _) in enumerate(f.args)))
+            body = hdr + ' { struct rt_string *s_ = (struct rt_string*)a0; s_->p = s_->u.buf; s_->len = 0; s_->u.buf[0] = 0; }\n'
+            protos.append(hdr + ';'); bodies.append(body); g.stats['stubbed_string_formatting'] += 1; continue
         if 'verif_new_array' in fn:
             f = m.funcs[fn]; et = g.cty(f.ret.to)
             hdr = '%s %s(unsigned long v_n)' % (g.cty(f.ret), fname(fn))
